@@ -198,7 +198,7 @@ Proof.
     rewrite hget_hdel_other in Gc by auto. apply Nc. eapply (i_sq _ _ _ _ I); eauto.
   - cbn [map snd In] in Ha. destruct Ha as [Ha|Ha]; [congruence|].
     destruct (o_repeat ob && negb (kmem (b, o_seq ob) (canceling st))) eqn:Br.
-    + apply andb_true_iff in Br as [Rp _]. unfold o_repeat in Rp. apply Z.ltb_lt in Rp.
+    + apply andb_true_iff in Br as [Rp _]. unfold o_repeat in Rp. apply Z.leb_le in Rp.
       set (o' := mkT (o_seq ob) (now + o_iv ob) (o_iv ob)) in *.
       set (st1 := set_heap st (hput b o' (heap st))) in *.
       assert (I1 : Inv st1) by (apply inv_hput_det; auto).
@@ -417,4 +417,159 @@ Proof.
   - refine (run_functors_add_then_cancel l1 l2 (set_pending st []) st' ev a o I _ G Hc HS).
     rewrite <- Ep. exact D.
   - destruct (run_functors_shape _ _ _ _ HS) as (_ & NR & _). intros dl now t. eapply rlog_nil_norun; eauto.
+Qed.
+
+(* ================================================================== a due repeater that is not cancelled is rescheduled *)
+(* cancelingTimers_ receives only ids that a callback op cancels *)
+Lemma cb_step_canceling_origin : forall st c st' ev k, cb_step st c = Ok (st', ev) -> In k (canceling st') ->
+  In k (canceling st) \/ c = CCancel (fst k) (snd k).
+Proof.
+  intros st c st' ev k H Hk. destruct c as [d|w iv a|a s|w iv a|a s|w iv a|a|cs]; cbn [cb_step] in H.
+  - destruct (d <? 0); inversion H; subst. auto.
+  - destruct (alloc st w iv a) as [[st1 s]| |] eqn:EA; cbn [bind] in H; try discriminate.
+    destruct (add_in_loop st1 a) as [[st2 e]| |] eqn:EL; cbn [bind] in H; try discriminate.
+    inversion H; subst. destruct (alloc_shape _ _ _ _ _ _ EA) as (_ & _ & _ & _ & _ & _ & Ec & _).
+    destruct (add_in_loop_shape _ _ _ _ EL) as (_ & _ & _ & _ & Ec2 & _). rewrite Ec2, Ec in Hk. auto.
+  - destruct (cancel_in_loop st a s) as [st1| |] eqn:EC; cbn [bind] in H; try discriminate. inversion H; subst.
+    unfold cancel_in_loop in EC. destruct (assert (sizes_agree st)); cbn [bind] in EC; try discriminate.
+    destruct (kmem (a, s) (active st)).
+    + destruct (deref st a) as [o| |]; cbn [bind] in EC; try discriminate.
+      destruct (kerase _ (timers st)); try discriminate. destruct (kerase _ (active st)); try discriminate.
+      inversion EC; subst. auto.
+    + destruct (calling st); inversion EC; subst; auto. cbn in Hk. apply kadd_in in Hk as [->|Hk]; auto.
+  - destruct (alloc st w iv a) as [[st1 s]| |] eqn:EA; cbn [bind] in H; try discriminate. inversion H; subst.
+    destruct (alloc_shape _ _ _ _ _ _ EA) as (_ & _ & _ & _ & _ & _ & Ec & _). cbn in Hk. rewrite Ec in Hk. auto.
+  - inversion H; subst. auto.
+  - destruct (alloc st w iv a) as [[st1 s]| |] eqn:EA; cbn [bind] in H; try discriminate. inversion H; subst.
+    destruct (alloc_shape _ _ _ _ _ _ EA) as (_ & _ & _ & _ & _ & _ & Ec & _). cbn in Hk. rewrite Ec in Hk. auto.
+  - destruct (zmem a (inflight st)); inversion H; subst. auto.
+  - inversion H; subst. auto.
+Qed.
+Lemma cb_run_canceling_origin : forall cs st st' ev a s, cb_run st cs = Ok (st', ev) ->
+  existsb (cb_cancels a s) cs = false -> ~ In (a, s) (canceling st) -> ~ In (a, s) (canceling st').
+Proof.
+  induction cs as [|c r IH]; intros st st' ev a s H NC NI; cbn [cb_run] in H.
+  - inversion H; subst; auto.
+  - cbn [existsb] in NC. apply orb_false_iff in NC as [N1 N2].
+    destruct (cb_step st c) as [[st1 e1]| |] eqn:E1; try discriminate.
+    + destruct (cb_run st1 r) as [[st2 e2]| |] eqn:E2; cbn [bind] in H; try discriminate.
+      inversion H; subst. eapply IH; [exact E2 | exact N2 |]. intros Hk.
+      destruct (cb_step_canceling_origin _ _ _ _ _ E1 Hk) as [Hk'|Ec]; [auto|].
+      cbn [fst snd] in Ec. subst c. cbn [cb_cancels] in N1. rewrite !Z.eqb_refl in N1. discriminate.
+    + destruct (cb_run st r) as [[st2 e2]| |] eqn:E2; cbn [bind] in H; try discriminate.
+      inversion H; subst. eapply IH; eauto.
+Qed.
+Lemma run_cbs_canceling_origin : forall ex st script now st' ev a s, run_cbs st ex script now = Ok (st', ev) ->
+  existsb (existsb (cb_cancels a s)) script = false -> ~ In (a, s) (canceling st) -> ~ In (a, s) (canceling st').
+Proof.
+  induction ex as [|[d b] ex IH]; intros st script now st' ev a s H NC NI; cbn [run_cbs] in H.
+  - inversion H; subst; auto.
+  - destruct (deref st b) as [ob| |]; cbn [bind] in H; try discriminate.
+    destruct (cb_run st (hd [] script)) as [[st1 e1]| |] eqn:E1; cbn [bind] in H; try discriminate.
+    destruct (run_cbs st1 ex (tl script) now) as [[st2 e2]| |] eqn:E2; cbn [bind] in H; try discriminate.
+    inversion H; subst. destruct (script_nc_split _ _ NC) as [N1 N2].
+    eapply IH; [exact E2 | exact N2 |]. eapply cb_run_canceling_origin; eauto.
+Qed.
+
+(* TimerQueue::reset restarts a repeater whose id is not in cancelingTimers_ at batch instant + delta and files it again *)
+Lemma reset_loop_restarts : forall ex st now P st' a o, Inv st -> DInv st (map snd ex ++ P) -> (ex <> [] -> 0 < now) ->
+  In a (map snd ex) -> hget a (heap st) = Some o -> o_repeat o = true -> ~ In (a, o_seq o) (canceling st) ->
+  reset_loop st ex now = Ok st' -> reg st' a (mkT (o_seq o) (now + o_iv o) (o_iv o)).
+Proof.
+  induction ex as [|[d b] ex IH]; intros st now P st' a o I D Pn Ha G Rp NC H; [contradiction|]. cbn [reset_loop] in H.
+  cbn [map snd app] in D. destruct D as [N Dt]. inversion N as [|x l NIb N']; subst.
+  destruct (Dt b (or_introl eq_refl)) as [[ob [Gb Po]] NDb].
+  assert (Pnow : 0 < now) by (apply Pn; discriminate).
+  unfold deref in H. rewrite Gb in H. cbn [bind] in H.
+  destruct (Z.eq_dec b a) as [->|Nab].
+  - rewrite G in Gb. inversion Gb; subst ob. apply kmem_false in NC. rewrite NC, Rp in H. cbn [andb negb] in H.
+    unfold o_repeat in Rp. apply Z.leb_le in Rp.
+    set (o' := mkT (o_seq o) (now + o_iv o) (o_iv o)) in *.
+    set (st1 := set_heap st (hput a o' (heap st))) in *.
+    assert (I1 : Inv st1) by (apply inv_hput_det; auto).
+    assert (G1 : hget a (heap st1) = Some o') by (apply hget_hput_same).
+    assert (P1 : 0 < o_exp o') by (cbn; lia).
+    destruct (insert_shape st1 a o' I1 G1 NDb P1) as (t' & a' & E & I2 & M & _).
+    rewrite E in H. cbn [bind] in H.
+    assert (D2 : DInv (set_sets st1 t' a') (map snd ex ++ P)).
+    { split; auto. intros c Hc'. assert (a <> c) by (intros ->; auto).
+      destruct (Dt c (or_intror Hc')) as [[oc [Gc Pc]] NDc]. split.
+      - exists oc. unfold st1. cbn [heap set_sets set_heap]. rewrite hget_hput_other; auto.
+      - intros d' Hd'. cbn in Hd'. apply M in Hd' as [Eq|Hd']; [inversion Eq; congruence| eapply NDc; eauto]. }
+    eapply (reset_loop_reg ex (set_sets st1 t' a') now P st' a o' I2 D2 (fun _ => Pnow)); [|exact H].
+    split; [exact G1|]. cbn [timers set_sets]. apply M. left. reflexivity.
+  - cbn [map snd In] in Ha. destruct Ha as [Ha|Ha]; [congruence|].
+    destruct (o_repeat ob && negb (kmem (b, o_seq ob) (canceling st))) eqn:Br.
+    + apply andb_true_iff in Br as [Rpb _]. unfold o_repeat in Rpb. apply Z.leb_le in Rpb.
+      set (o' := mkT (o_seq ob) (now + o_iv ob) (o_iv ob)) in *.
+      set (st1 := set_heap st (hput b o' (heap st))) in *.
+      assert (I1 : Inv st1) by (apply inv_hput_det; auto).
+      assert (G1 : hget b (heap st1) = Some o') by (apply hget_hput_same).
+      assert (P1 : 0 < o_exp o') by (cbn; lia).
+      destruct (insert_shape st1 b o' I1 G1 NDb P1) as (t' & a' & E & I2 & M & _).
+      rewrite E in H. cbn [bind] in H.
+      assert (D2 : DInv (set_sets st1 t' a') (map snd ex ++ P)).
+      { split; auto. intros c Hc'. assert (b <> c) by (intros ->; auto).
+        destruct (Dt c (or_intror Hc')) as [[oc [Gc Pc]] NDc]. split.
+        - exists oc. unfold st1. cbn [heap set_sets set_heap]. rewrite hget_hput_other; auto.
+        - intros d' Hd'. cbn in Hd'. apply M in Hd' as [Eq|Hd']; [inversion Eq; congruence| eapply NDc; eauto]. }
+      eapply (IH (set_sets st1 t' a') now P st' a o I2 D2 (fun _ => Pnow) Ha); [| | |exact H]; auto.
+      unfold st1. cbn [heap set_sets set_heap]. rewrite hget_hput_other; auto.
+    + set (st1 := set_heap st (hdel b (heap st))) in *.
+      assert (I1 : Inv st1) by (apply inv_hdel_det; auto).
+      assert (D1 : DInv st1 (map snd ex ++ P)).
+      { split; auto. intros c Hc'. assert (b <> c) by (intros ->; auto).
+        cbn. apply detc_hdel with (ts := timers st); auto. apply Dt. right; auto. }
+      eapply (IH st1 now P st' a o I1 D1 (fun _ => Pnow) Ha); [| | |exact H]; auto.
+      unfold st1. cbn [heap set_heap]. rewrite hget_hdel_other; auto.
+Qed.
+
+(* A repeater that is due in an expiry and whose id no callback of that expiry cancels runs exactly once in it
+   and is filed again under (batch instant + delta), delta = o_iv >= 0 -- also for delta = 0 (interval below one
+   microsecond): it is then filed under the batch instant itself, does NOT run again in this expiry, and the
+   timerfd is re-armed no earlier than clock + floor (C06_expiry_runs_exactly_due), so the loop does not spin. *)
+Lemma repeater_rescheduled : forall c ops st evs script st' ev d a o,
+  run (init c) ops = Ok (st, evs) -> fire st script = Ok (st', ev) ->
+  In (d, a) (timers st) -> d <= clk st -> hget a (heap st) = Some o -> 0 <= o_iv o ->
+  existsb (existsb (cb_cancels a (o_seq o))) script = false ->
+  hget a (heap st') = Some (mkT (o_seq o) (clk st + o_iv o) (o_iv o)) /\ In (clk st + o_iv o, a) (timers st') /\
+  length (runs_of (o_seq o) ev) = 1%nat /\
+  (forall x, armed st' = Some x -> clk st' + TimerQueue_floor_val <= x).
+Proof.
+  intros c ops st evs script st' ev d a o H HF Hi Le G Rp NC.
+  pose proof (reach_top _ _ _ _ H) as T. pose proof T as (I & _).
+  destruct (fire_decomp _ _ _ _ T HF) as (ex & rest & act & st4 & evs' & st6 & KS & Eapp & Lex & I3 & D3 & ER & I4 & D4 & C4 & EL & I6 & Eh & Et & Ea & En & _).
+  assert (Edue : due st = ex) by (unfold due; rewrite KS; reflexivity).
+  assert (Hex : In (d, a) ex) by (rewrite <- Edue; apply due_iff; auto).
+  assert (HaX : In a (map snd ex)) by (apply in_map_iff; exists (d, a); auto).
+  destruct (consume_same st) as (Eh0 & _ & _ & En0 & _).
+  set (st3 := set_canceling (set_calling (set_sets (consume st) rest act) true) []) in *.
+  assert (NC4 : ~ In (a, o_seq o) (canceling st4)).
+  { eapply (run_cbs_canceling_origin ex st3 script (clk st) st4 evs' a (o_seq o) ER NC). unfold st3. cbn. tauto. }
+  assert (G4 : hget a (heap st4) = Some o).
+  { assert (F : hget a (heap st4) = hget a (heap st3)).
+    { assert (H3 : HI noR st3 evs) by (eapply HI_same; [| |exact (reach_hist _ _ _ _ H)]; unfold st3; cbn; auto).
+      assert (NDex : NoDup (map snd ex)) by (destruct D3 as [N _]; apply NoDup_app_l in N; auto).
+      assert (Hex0 : forall d0 a0, In (d0, a0) ex -> exists o0, hget a0 (heap st3) = Some o0 /\ o_exp o0 = d0).
+      { intros d0 a0 Hi0. destruct (i_ta _ _ _ _ I d0 a0) as (o0 & G0 & E0 & _); [rewrite Eapp; apply in_or_app; auto|].
+        exists o0. split; auto. cbn. rewrite Eh0. auto. }
+      destruct (run_cbs_hist ex st3 script (clk st) (map snd ex) noR evs st4 evs' I3 D3 (incl_refl _)
+                  (fun b (F : noR b) => match F with end) NDex (fun b _ (F : noR b) => F) Hex0 H3 ER) as (_ & _ & Fr).
+      apply Fr; auto. }
+    rewrite F. cbn. rewrite Eh0. auto. }
+  assert (Pn : ex <> [] -> 0 < clk st).
+  { destruct ex as [|[d1 a1] ex']; [congruence|]. intros _.
+    assert (0 < d1) by (eapply (i_pos _ _ _ _ I); rewrite Eapp; left; eauto).
+    pose proof (Lex d1 a1 (or_introl eq_refl)). lia. }
+  assert (Rb : o_repeat o = true) by (unfold o_repeat; apply Z.leb_le; auto).
+  destruct (reset_loop_restarts ex (set_calling st4 false) (clk st) (detq st4) st6 a o I4 D4 Pn HaX G4 Rb NC4 EL) as [G6 T6].
+  cbn [o_exp] in T6.
+  destruct (fire_runs_due _ _ _ _ _ _ _ H HF) as (_ & _ & _ & RA).
+  destruct (none_lost _ _ _ _ _ _ _ H HF _ _ Hi Le) as (o2 & t & G2 & HR). rewrite G in G2. inversion G2; subst o2.
+  splits.
+  - rewrite Eh. exact G6.
+  - rewrite Et. exact T6.
+  - pose proof (fire_once _ _ _ _ _ _ _ (o_seq o) H HF). pose proof (nruns_in _ _ _ _ _ HR) as Ge. rewrite nruns_filter in Ge. lia.
+  - intros x Ax. destruct (timers st') as [|[d0 a0] r0] eqn:ET'; [rewrite <- Et in T6; contradiction|].
+    destruct (RA _ _ _ ET') as [A' _]. rewrite A' in Ax. inversion Ax; subst. lia.
 Qed.
